@@ -127,7 +127,9 @@ fn long_rear_case(j: u64) -> Case {
         x ^= x << 17;
         x as usize
     };
+    const B5: usize = B4 + 128 * 128 * 128 * 128; // 270549120: 5-byte codes, thorough tier only (indices 116..)
     let rear = match j % 8 {
+        _ if j >= 116 => B5 - 2 + (j as usize - 116) * 2 + (j as usize % 2) * 70_001,
         0 => B3 + next() % 3,
         1 => B3 - 1 - next() % 2,
         2 => B3 + next() % (B4 - B3),
@@ -318,8 +320,12 @@ impl Property for C09 {
             Segment::enumerated("long-rear-lengths", tier.pick(16, 120), &[2]),
         ]
     }
+    fn watchdog_s(&self) -> u64 {
+        // the 270 MB strings of the thorough tier take about a minute on a loaded machine
+        900
+    }
     fn rule(&self) -> &'static str {
-        "case = (block size k in {1,2,3,4,8,16,n-1,n,n+1,..20}, n strings without NUL built as prefix families over 6 alphabets (a/b, ASCII, 2/3/4-byte UTF-8, low code points) with lengths around 127..130 (thorough: a family with >=16512-byte suffixes), order in {sorted, reversed, sorted with duplicates, unsorted}, push or extend) decoded from bytes; oracle = the Vec<String>; observed len, get, get_in_place for every i, iter/into_iter/into_lender/lend, iter_from/lend_from/into_iter_from for every start 0..=n (sampled above 80) with len/size_hint before every next, index_of/contains for stored strings, prefixes, extensions, neighbours and strings between neighbours. Plus an enumerated segment of lists whose rear lengths sit at and inside the 3- and 4-byte variable-byte regimes (16512, 2113664 +-2, up to 6 MB strings). Non-trivial: n>=2 with a non-empty shared prefix between two consecutive strings, or labels n=0, n%k=0, rear>=128, dups, unsorted, multibyte; distinct = distinct hash of the decoded case."
+        "case = (block size k in {1,2,3,4,8,16,n-1,n,n+1,..20}, n strings without NUL built as prefix families over 6 alphabets (a/b, ASCII, 2/3/4-byte UTF-8, low code points) with lengths around 127..130 (thorough: a family with >=16512-byte suffixes), order in {sorted, reversed, sorted with duplicates, unsorted}, push or extend) decoded from bytes; oracle = the Vec<String>; observed len, get, get_in_place for every i, iter/into_iter/into_lender/lend, iter_from/lend_from/into_iter_from for every start 0..=n (sampled above 80) with len/size_hint before every next, index_of/contains for stored strings, prefixes, extensions, neighbours and strings between neighbours. Plus an enumerated segment of lists whose rear lengths sit at and inside the 3- and 4-byte variable-byte regimes (16512, 2113664 +-2, up to 6 MB strings; thorough: 270549120 +-2, the 5-byte regime, 270 MB strings). Non-trivial: n>=2 with a non-empty shared prefix between two consecutive strings, or labels n=0, n%k=0, rear>=128, dups, unsorted, multibyte; distinct = distinct hash of the decoded case."
     }
     fn run(&self, data: &[u8], cx: &mut Ctx) -> R {
         let (mode, rest) = data.split_first().unwrap_or((&0, &[]));
@@ -331,6 +337,7 @@ impl Property for C09 {
             cx.describe(|| format!("long rear lengths: k={} n={} string lengths {:?}", c.k, c.strings.len(), c.strings.iter().map(|s| s.len()).collect::<Vec<_>>()));
             cx.label("rear>=16512");
             cx.label_if(c.strings.iter().any(|s| s.len() >= 2_113_664), "rear>=2113664");
+            cx.label_if(c.strings.iter().any(|s| s.len() >= 270_549_120), "rear>=270549120");
             cx.nontrivial();
             return check(cx, &c);
         }
